@@ -318,63 +318,136 @@ def repeat_scope(R, ctx):
              "`until x` no longer sees `local x` declared in the body" if renests and not mentions_cond else "condition handled / body not re-nested")
 
 
-def format_specifier(R, ctx):
-    """Sibling-table agreement inside remove_interpolated_string: `%s` only accepts strings/numbers in Lua 5.1 and Luau."""
-    import re
-    rid = "C06.tostring"
+def format_specifier(R, ctx, rid="C06.tostring", rid_removed=None):
+    """remove_interpolated_string's process_expression as a transfer function on abstract interpolated strings."""
+    import itertools
+    from .. import peval
+    from ..peval import Enum, Struct, UNKNOWN, make
     lib = ctx.lib
     PROC = "rules::remove_interpolated_string::RemoveInterpolatedStringProcessor"
-    STRAT = "rules::remove_interpolated_string::ReplacementStrategy"
-    R.rule(rid, "RemoveInterpolatedStringProcessor::replace_with has two tables over ReplacementStrategy: the format specifier written for a value "
-                "segment and how the value is passed. Lua 5.1 / Luau `string.format('%s', v)` raises for booleans, nil, tables: for every strategy "
-                "whose specifier is `%s` every arm that passes the value must wrap it in a `tostring(..)` call (FunctionCall::from_name(..)"
-                ".with_argument(value)), without a guard letting some values through bare; only `%*` may take the bare value")
-    fn = lib.fn(PROC + "::replace_with")
-    if not R.require(rid, "anchor", fn is not None, "", "replace_with not found"):
+    N = "nodes::expressions::"
+    IS, SEG, VS, SS = N + "interpolated_string::InterpolatedStringExpression", N + "interpolated_string::InterpolationSegment", N + "interpolated_string::ValueSegment", N + "interpolated_string::StringSegment"
+    R.rule(rid, "RemoveInterpolatedStringProcessor::process_expression, evaluated from its typed tree for both strategies on `` `{v}` ``, "
+                "`` `text{v}` `` and `` `{v}{w}` `` with v ranging over every Expression variant: under the `%s` strategy every value handed "
+                "to string.format is wrapped in a `tostring(..)` call unless it is a string, number or (still to be lowered) interpolated "
+                "string -- Lua 5.1 / Luau `%s` raises for booleans, nil, tables; a lone `{v}` becomes `tostring(v)`")
+    if rid_removed:
+        R.rule(rid_removed, "the same evaluation: whatever the segments are -- including a value that is itself an interpolated string -- the node "
+                            "written in place of an interpolated string is not an interpolated string (the visitor does not call the rule again on "
+                            "the node it has just replaced, so it would survive)")
+    fn = lib.fn("<%s as process::node_processor::NodeProcessor>::process_expression" % PROC)
+    a_ = lib.adts.get(PROC)
+    if not R.require(rid, "anchor", fn is not None and a_ is not None and all(x in lib.adts for x in (IS, SEG, VS)), "", "processor / node types not found"):
         return
-    fa = ctx.an.fa(fn["path"])
-    spec, pass_tables = {}, []
-    for n in thir.walk(thir.body_of(fn)):
-        if n.get("k") != "Match" or (PROC, "strategy") not in fa.origins(n["scrut"]):
-            continue
-        lits = {}
-        for arm in n["arms"]:
-            bl = [re.findall(r"\d+", x["v"].split("]")[0]) for x in thir.walk(arm["body"]) if x.get("k") == "Lit" and str(x.get("v", "")).startswith("ByteStr(")]
-            if bl:
-                for v in thir.pat_variants(arm["pat"]):
-                    lits[v[1]] = bytes(int(b) for b in bl[0]).decode("latin-1")
-        if lits:
-            spec.update(lits)
-        else:
-            pass_tables.append(n)
-    R.require(rid, "anchor:specifier-table", "%s" in spec.values() and len(spec) >= 2, ctx.where(fn), "specifier table: %s" % spec)
-    R.require(rid, "anchor:value-table", len(pass_tables) >= 1, ctx.where(fn), "%d matches over self.strategy that pass the value" % len(pass_tables))
-    variants = [v["name"] for v in lib.adts[STRAT]["variants"]]
-    for n in pass_tables:
-        for var in variants:
-            if spec.get(var) == "%*":
-                continue
-            arms = [a for a in n["arms"] if (STRAT, var) in thir.pat_variants(a["pat"]) or thir.pat_is_catchall(a["pat"])]
-            ok = bool(arms)
-            why = []
-            for a in arms:
-                wraps = [c for c in thir.walk(a["body"]) if c.get("k") == "Call" and c.get("fname") == "with_argument"
-                         and any(x.get("fname") == "from_name" and (thir.callee_of(x) or "").endswith("FunctionCall::from_name") for x in thir.walk(c["args"][0]))]
-                if not wraps and "guard" in a:
-                    # a guarded bare arm is harmless only when the guard admits nothing but values `%s` accepts
-                    gbody = [a["guard"]]
-                    for c in thir.walk(a["guard"]):
-                        q = lib.fn(thir.callee_of(c) or "") if c.get("k") == "Call" else None
-                        if q is not None and thir.body_of(q):
-                            gbody.append(thir.body_of(q))
-                    sets = [vs for b in gbody for _m, vs in tables.guard_variant_sets(lib, b, "nodes::expressions::Expression")]
-                    if len(sets) == 1 and sets[0] and sets[0] <= {"String", "Number", "InterpolatedString"}:
-                        continue
-                    ok = False; why.append("guarded arm at line %s passes %s without tostring" % (a.get("ln", a["body"].get("ln")), sorted(sets[0]) if len(sets) == 1 else "some values"))
-                elif not wraps:
-                    ok = False; why.append("arm at line %s passes the value without tostring" % a.get("ln", a["body"].get("ln")))
-            R.ob(rid, "wraps|%s|specifier=%s" % (var, spec.get(var, "?")), ok, ctx.where(fn, n.get("ln")),
-                 "every arm for %s wraps the value in tostring(..)" % var if ok else "; ".join(why) + ": string.format('%s', true/nil/{}) raises in Lua 5.1 and Luau")
+    strat = [(f["name"], f["tys"]) for f in a_["variants"][0]["fields"] if f.get("tys") in lib.adts and lib.adts[f["tys"]].get("kind") == "enum"]
+    if not R.require(rid, "anchor:strategy-field", len(strat) == 1, ctx.adt_where(PROC), "strategy field: %s" % strat):
+        return
+    sf, st = strat[0]
+    variants = [v["name"] for v in lib.adts[EXPR]["variants"]]
+    SAFE = {"String", "Number", "InterpolatedString"}
+
+    def value(kind, tag):
+        return Enum(EXPR, kind, {"0": Struct("#payload", {"#tag": tag})})
+
+    def seg_value(kind, tag):
+        return Enum(SEG, "Value", {"0": make(lib, VS, {"value": value(kind, tag)})})
+
+    def seg_text():
+        return Enum(SEG, "String", {"0": make(lib, SS, {"value": list(b"text")})})
+
+    def tag_of(x):
+        out = []
+
+        def rec(y):
+            if isinstance(y, (Struct, Enum)):
+                if "#tag" in y.fields:
+                    out.append(y.fields["#tag"])
+                    return
+                for z in y.fields.values():
+                    rec(z)
+            elif isinstance(y, (list, tuple)):
+                for z in y:
+                    rec(z)
+        rec(x)
+        return out
+
+    def is_tostring_call(x):
+        # Expression::Call(FunctionCall { prefix: Identifier(tostring | captured name), arguments: one value })
+        if not (isinstance(x, Enum) and x.adt == EXPR and x.variant == "Call"):
+            return False
+        call = x.fields.get("0")
+        pre = call.fields.get("prefix") if isinstance(call, Struct) else None
+        return isinstance(pre, Enum) and pre.variant == "Identifier" and len(tag_of(call.fields.get("arguments"))) == 1
+    n = 0
+    bad_fmt, bad_left, unk = [], [], []
+    for strategy in [v["name"] for v in lib.adts[st]["variants"]]:
+        for shape in ("v", "tv", "vv"):
+            for kind in variants:
+                segs = {"v": [seg_value(kind, "v")], "tv": [seg_text(), seg_value(kind, "v")], "vv": [seg_value(kind, "v"), seg_value("Identifier", "w")]}[shape]
+                e = Enum(EXPR, "InterpolatedString", {"0": make(lib, IS, {"segments": segs})})
+                over = {sf: Enum(st, strategy)}
+                for f in a_["variants"][0]["fields"]:
+                    if f.get("tys") == "alloc::string::String":
+                        over[f["name"]] = "__CAPTURED"
+                proc = make(lib, PROC, over)
+
+                def hook(pe, path, fname, args, node):
+                    if fname == "is_identifier_used" and len(args) == 2:
+                        return False
+                    return NotImplemented
+                pe = peval.PEval(lib, ctx.an, hook)
+                try:
+                    pe.call_fn(fn, [proc, e])
+                except peval.OutOfFuel:
+                    pass
+                n += 1
+                case = "%s strategy, `%s` with v = Expression::%s" % (strategy, {"v": "{v}", "tv": "text{v}", "vv": "{v}{w}"}[shape], kind)
+                if pe.unknown_reasons:
+                    unk.append((case, pe.unknown_reasons[:1]))
+                    continue
+                if isinstance(e, Enum) and e.variant == "InterpolatedString":
+                    bad_left.append(case)
+                    continue
+                if shape == "v":
+                    if kind not in SAFE and not is_tostring_call(e):
+                        bad_fmt.append(case + ": written as %s, not tostring(v)" % (e.variant if isinstance(e, Enum) else e))
+                    continue
+                call = e.fields.get("0") if isinstance(e, Enum) and e.variant == "Call" else None
+                args = call.fields.get("arguments") if isinstance(call, Struct) else None
+                vals = args.fields["0"].fields.get("values") if isinstance(args, Enum) and isinstance(args.fields.get("0"), Struct) else None
+                if not isinstance(vals, list) or len(vals) < 2:
+                    unk.append((case, ["result is not a call with a format string and values"]))
+                    continue
+                fmt = vals[0]
+                uses_s = b"%s" in bytes(tag_bytes(fmt))
+                for v_ in vals[1:]:
+                    t = tag_of(v_)
+                    if t == ["v"] and uses_s and kind not in SAFE and not is_tostring_call(v_):
+                        bad_fmt.append(case + ": v is handed to `%s` without tostring")
+    R.require(rid, "floor", n >= 100, ctx.where(fn), "%d cells" % n)
+    R.ob(rid, "established", not unk, ctx.where(fn), "all cells evaluate" if not unk else "not established: %s %s" % unk[0])
+    R.ob(rid, "wraps|StringSpecifier|specifier=%s", not bad_fmt, ctx.where(fn), "every non-string value reaches `%s` through tostring" if not bad_fmt else bad_fmt[0] + ": string.format('%s', true/nil/{}) raises in Lua 5.1 and Luau")
+    if rid_removed:
+        R.ob(rid_removed, "remove_interpolated_string|replacement-is-not-the-construct", not bad_left, ctx.where(fn),
+             "the replacement is never an interpolated string" if not bad_left else "%s: the node written is itself an interpolated string and is not visited again" % bad_left[0])
+
+
+def tag_bytes(fmt):
+    """Bytes of a StringExpression value built by the rule (Vec<u8> modelled as a list of ints)."""
+    from ..peval import Struct, Enum
+    out = []
+
+    def rec(y):
+        from ..peval import Iter
+        if isinstance(y, Iter):
+            y = y.items
+        if isinstance(y, list) and all(isinstance(z, int) for z in y):
+            out.extend(y)
+        elif isinstance(y, (Struct, Enum)):
+            for z in y.fields.values():
+                rec(z)
+    rec(fmt)
+    return out
 
 
 def sticky_capture_flags(R, ctx):
